@@ -10,10 +10,14 @@ import time
 V = "/verif"
 REPO = os.environ.get("VERIF_REPO", "/repo")
 TARGET = os.environ.get("VERIF_TARGET", V + "/target")
-COPIA = TARGET + "/cli/release/copia"
-COPIA_DEV = TARGET + "/cli/debug/copia"
-VH = TARGET + "/vh/release/vh"
-VH_DEBUG = TARGET + "/vh/verif-debug/vh"
+import hashlib as _hl
+
+# one target sub-directory per source path (see bin/build.sh)
+SFX = "" if REPO == "/repo" else "-" + _hl.md5(REPO.encode()).hexdigest()[:8]
+COPIA = TARGET + "/cli%s/release/copia" % SFX
+COPIA_DEV = TARGET + "/cli%s/debug/copia" % SFX
+VH = TARGET + "/vh%s/release/vh" % SFX
+VH_DEBUG = TARGET + "/vh%s/verif-debug/vh" % SFX
 SHIM = TARGET + "/libfsmon.so"
 SHIM_ALLOC = TARGET + "/libfsmon_alloc.so"
 WORK = os.environ.get("VERIF_WORK", V + "/.work")
